@@ -4,8 +4,8 @@
 
   Clauses of the property and where they are stated:
     * content / no explicit defaults / shape of `fromUncompressed`  — §1
-    * `uncompress (fromUncompressed n) (dims n) = n`                — §2 (full for
-      `Fiber.fromUncompressed`; PARTIAL through a tensor: all-default nests of depth ≥ 2)
+    * `uncompress (fromUncompressed n) (dims n) = n`                — §2 (full, fiber and
+      tensor route, all-default nests included)
     * dictionary and YAML round trips                                — §3 (YAML text layer abstracted)
     * `fromRandom`                                                   — §4
 -/
@@ -109,42 +109,14 @@ end FromU
 section Unc
 variable {ν : Type} [DecidableEq ν]
 
-/-- Round trip (`Fiber.fromUncompressed`, a free fiber): for EVERY rectangular nest with
-    positive dimensions — all-default ones included (fix cc544e6) — uncompressing the tree built
-    from it to the nest's dimensions returns the nest. -/
-theorem uncompress_fromUncompressed (dflt : ν) (d : Nat) (dims : List Nat) (n : Nest ν (d + 1))
+/-- Round trip: for EVERY rectangular nest with positive dimensions — all-default ones
+    included — uncompressing the tree built from it to the nest's dimensions returns the nest,
+    both for `Fiber.fromUncompressed` (`owned = false`) and through
+    `Tensor.fromUncompressed(...).getRoot()` (`owned = true`).  (Fixes cc544e6, ecc4474.) -/
+theorem uncompress_fromUncompressed (owned : Bool) (dflt : ν) (d : Nat) (dims : List Nat) (n : Nest ν (d + 1))
     (hr : rectB (d + 1) dims n = true) (hpos : ∀ k ∈ dims, 0 < k) :
-    uncompress false dflt d dims (fromUncompressed dflt d n) = some n :=
-  cv_uncompress_roundtrip false dflt d dims n hr hpos (Or.inl rfl)
-
-/-- Round trip through a tensor (`Tensor.fromUncompressed(...).getRoot().uncompress(dims)`),
-    PARTIAL: proved when the nest has a non-default entry or has depth 1.  (Gap: for an
-    all-default nest of depth ≥ 2 the root is an empty fiber owned by a NON-LEAF rank, whose
-    default `_fillempty` now takes is the class `Fiber`, not a value —
-    `uncompress_fromUncompressed_owned_allDefault_fails`.) -/
-theorem uncompress_fromUncompressed_owned_partial (dflt : ν) (d : Nat) (dims : List Nat) (n : Nest ν (d + 1))
-    (hr : rectB (d + 1) dims n = true) (hpos : ∀ k ∈ dims, 0 < k)
-    (hne : allDefault dflt (d + 1) n = false ∨ d = 0) :
-    uncompress true dflt d dims (fromUncompressed dflt d n) = some n :=
-  cv_uncompress_roundtrip true dflt d dims n hr hpos (Or.inr hne)
-
-/-- The excluded class really fails, always: for a tensor-owned tree no nest of values comes
-    back from an all-default nest of depth ≥ 2 with positive dimensions. -/
-theorem uncompress_fromUncompressed_owned_allDefault_fails (dflt : ν) (d : Nat) (dims : List Nat) (n : Nest ν (d + 2))
-    (hr : rectB (d + 2) dims n = true) (hpos : ∀ k ∈ dims, 0 < k) (hall : allDefault dflt (d + 2) n = true) :
-    uncompress true dflt (d + 1) dims (fromUncompressed dflt (d + 1) n) = none := by
-  have hnone := (makeFiber_eq_none_iff dflt (d + 1) n).2 hall
-  rw [fromUncompressed_of_none hnone]
-  cases dims with
-  | nil => rw [rectB_succ_nil] at hr; cases hr
-  | cons m ns =>
-    have hm : 0 < m := hpos m (List.mem_cons_self ..)
-    have hpos' : ∀ k ∈ ns, 0 < k := fun k hk => hpos k (List.mem_cons_of_mem _ hk)
-    obtain ⟨m', rfl⟩ : ∃ m', m = m' + 1 := ⟨m - 1, by omega⟩
-    show uncRows (fun (t : Tree Nat ν (d + 1)) => uncompress true dflt d ns t) (fillEmpty none (d + 1) ns)
-      (orMerge [] (rangeFib (m' + 1))) = none
-    rw [rangeFib_eq, rangeFibFrom_succ, fillEmpty_none_of_pos (d + 1) ns hpos']
-    simp [orMerge, uncRows]
+    uncompress owned dflt d dims (fromUncompressed dflt d n) = some n :=
+  cv_uncompress_roundtrip owned dflt d dims n hr hpos
 
 end Unc
 
@@ -490,15 +462,13 @@ example : fiberShape (0 : Int) 1 exZero = [2] :=
   fromUncompressed_fiber_shape_allDefault 0 0 exZero (by decide)
 -- §2
 example : uncompress false (0 : Int) 1 [2, 2] (fromUncompressed 0 1 exNest) = some exNest :=
-  uncompress_fromUncompressed 0 1 [2, 2] exNest (by decide) (by decide)
+  uncompress_fromUncompressed false 0 1 [2, 2] exNest (by decide) (by decide)
 example : uncompress false (0 : Int) 1 [2, 2] (fromUncompressed 0 1 exZero) = some exZero :=
-  uncompress_fromUncompressed 0 1 [2, 2] exZero (by decide) (by decide)
-example : uncompress false (7 : Int) 0 [3] (fromUncompressed 7 0 exLeaf) = some exLeaf :=
-  uncompress_fromUncompressed 7 0 [3] exLeaf (by decide) (by decide)
-example : uncompress true (0 : Int) 1 [2, 2] (fromUncompressed 0 1 exNest) = some exNest :=
-  uncompress_fromUncompressed_owned_partial 0 1 [2, 2] exNest (by decide) (by decide) (Or.inl (by decide))
-example : uncompress true (0 : Int) 1 [2, 2] (fromUncompressed 0 1 exZero) = none :=
-  uncompress_fromUncompressed_owned_allDefault_fails 0 0 [2, 2] exZero (by decide) (by decide) (by decide)
+  uncompress_fromUncompressed false 0 1 [2, 2] exZero (by decide) (by decide)
+example : uncompress true (0 : Int) 1 [2, 2] (fromUncompressed 0 1 exZero) = some exZero :=
+  uncompress_fromUncompressed true 0 1 [2, 2] exZero (by decide) (by decide)
+example : uncompress true (7 : Int) 0 [3] (fromUncompressed 7 0 exLeaf) = some exLeaf :=
+  uncompress_fromUncompressed true 7 0 [3] exLeaf (by decide) (by decide)
 
 -- §3: a rank-2 tensor with an explicit default and an empty sub-fiber, plain coordinates
 def cv_exTree : Tree YCoord Int 2 :=
